@@ -31,6 +31,15 @@ Proof.
   - inversion E; subst. exists h; auto.
 Qed.
 
+Lemma mapM_app_local {A B} (f : A -> res B) a b :
+  mapM f (a ++ b) = (x <- mapM f a ;; y <- mapM f b ;; Ok (x ++ y)).
+Proof.
+  induction a as [|h a IH]; simpl.
+  - destruct (mapM f b); reflexivity.
+  - destruct (f h); simpl; [|reflexivity]. rewrite IH.
+    destruct (mapM f a); simpl; [|reflexivity]. destruct (mapM f b); reflexivity.
+Qed.
+
 Lemma Forall2_length' {A B} (R : A -> B -> Prop) l r : Forall2 R l r -> length l = length r.
 Proof. induction 1; simpl; congruence. Qed.
 
